@@ -14,7 +14,8 @@ Proof. intros names. split; vm_compute; reflexivity. Qed.
 
 (* ---- compile_correct ---- *)
 (* Every function the compiler accepts, run by the VM on its compiled *bytes*, returns what the Go semantics of
-   the source returns, for all programs, argument tuples and native oracles - under the guard [in_scope]. *)
+   the source returns and fails when the Go run panics, for all programs, argument tuples and native oracles -
+   under the guard [in_scope]. *)
 Theorem compile_correct_partial : forall names,
   compile_correct_statement (the_cfg names) (fun p cs => in_scope (the_cfg names) p cs).
 Proof. intros names. exact (Correct.compile_correct_partial (the_cfg names)). Qed.
@@ -87,15 +88,23 @@ Example in_scope_call : in_scope cfg0 w_call (compiled cfg0 w_call) = true /\
   go cfg0 w_call 1 [VInt 1; VInt 10] = EOk (Some (VInt 13)) /\ vm_bytes cfg0 w_call 1 [VInt 1; VInt 10] = RDone (mkres VNil 13).
 Proof. repeat split; vm_compute; reflexivity. Qed.
 
+(* func qf0(s string, n int) string { return s[n:] } -- a Go panic (slice bounds) is a failure of the VM run *)
+Definition w_slice : program :=
+  [mkfun [(10, TStr); (11, TInt)] [TStr] [SReturn [ESlice TStr (EIdent 10 TStr) (Some (EIdent 11 TInt)) None false]]].
+Example in_scope_panic : in_scope cfg0 w_slice (compiled cfg0 w_slice) = true /\
+  go cfg0 w_slice 0 [VStr [97; 98]; VInt 5] = EPanic PSliceBounds /\ vm_bytes cfg0 w_slice 0 [VStr [97; 98]; VInt 5] = RPanic PSliceBounds /\
+  go cfg0 w_slice 0 [VStr [97; 98]; VInt 1] = EOk (Some (VStr [98])) /\ vm_bytes cfg0 w_slice 0 [VStr [97; 98]; VInt 1] = RDone (mkres (VStr [98]) 0).
+Proof. repeat split; vm_compute; reflexivity. Qed.
+
 (* ---- the full statement (no guard) is false of the faithful model: || / && junk under a pending operand ---- *)
 Theorem compile_correct_refuted_logic_junk :
   ~ compile_correct_statement cfg0 (fun _ _ => true).
 Proof.
   intros H.
-  destruct (H no_natives w_logic (compiled cfg0 w_logic) ltac:(vm_compute; reflexivity) eq_refl 50%nat 1 [VBool false; VBool false] (Some (VInt 1))
-              ltac:(vm_compute; reflexivity)
+  destruct (H no_natives w_logic (compiled cfg0 w_logic) ltac:(vm_compute; reflexivity) eq_refl 50%nat 1 [VBool false; VBool false]
               (match nthz (compiled cfg0 w_logic) 1 with Some cf => cf | None => mkcfunc [] [] [] 0 0 end) ltac:(vm_compute; reflexivity))
-    as (fuel' & cr & Hrun & _).
+    as [Hok _].
+  destruct (Hok (Some (VInt 1)) ltac:(vm_compute; reflexivity)) as (fuel' & cr & Hrun & _).
   revert Hrun. unfold call_fun. cbn [push_args fold_left].
   apply (run_panic_never_done _ _ _ 400 _ PTypeAssert). vm_compute. reflexivity.
 Qed.
